@@ -366,6 +366,17 @@ def main(argv):
             problems = audit(cfg["prop_file"], report)
             if problems:
                 violations.append({"kind": "audit", "key": "audit", "desc": "; ".join(problems)[:2000], "found_input": False})
+        # thorough tier: independent re-check of the compiled property file and everything it depends on
+        if args.tier == "thorough" and not proof_failed:
+            lib = "Regen." + cfg["prop_file"][:-2].replace("/", ".")
+            tc = time.time()
+            rc, out = run(["timeout", "5400", "coqchk", "-silent", "-o", "-Q", ".", "Regen", lib], cwd=COQ, timeout=5500)
+            report["coqchk_s"] = round(time.time() - tc, 1)
+            report["coqchk_rc"] = rc
+            m = re.search(r"\* Axioms:\s*(.*?)\n\s*\n", out + "\n\n", flags=re.S)
+            report["coqchk_axioms"] = (m.group(1).strip() if m else out[-1500:])
+            if rc != 0:
+                violations.append({"kind": "coqchk", "key": "coqchk", "desc": "coqchk rejected %s: %s" % (lib, out[-1500:]), "found_input": False})
         if run_failed:
             raise FrameworkError("the case evaluator does not compile: %s\n%s" % (run_failed, out[-3000:]))
 
@@ -377,7 +388,8 @@ def main(argv):
         for fam in cfg["families"]:
             name = fam["cmd"]
             fam_args = dict(fam)
-            cdir = os.path.join(CACHE, th, name, "%s_%d" % (args.tier, args.seed))
+            akey = hashlib.sha256((" ".join(fam.get("args", [])) + "|" + str(fam.get("emit"))).encode()).hexdigest()[:8]
+            cdir = os.path.join(CACHE, th, name + "_" + akey, "%s_%d" % (args.tier, args.seed))
             summ = None
             if fam.get("cache") and os.path.exists(os.path.join(cdir, "summary.json")) and os.path.exists(os.path.join(cdir, "shards_done.json")):
                 with open(os.path.join(cdir, "summary.json")) as f:
@@ -475,6 +487,7 @@ def main(argv):
                 "monitor_violations_total": sum(len(s.get("monitor_violations") or []) for s in summaries),
                 "generated_changed": report.get("generated_changed"),
                 "coq_build_s": report.get("coq_build_s"),
+                "coqchk": {k: report.get(k) for k in ("coqchk_s", "coqchk_rc", "coqchk_axioms") if k in report},
                 "explanation": cfg.get("explanation", ""),
             },
             "assumptions": cfg.get("assumptions", []),
